@@ -36,6 +36,18 @@ PROPS = {
         'kani': {'quick': [('key_layout', ['prefix_selects_exactly_its_index_and_kind'])]},
         'not_decided': [],
     },
+    'C13': {
+        'verus': {'node_ids': ['ConcurrentNodeIds::new', 'ConcurrentNodeIds::next', 'lemma_distinct_tickets_distinct_ids']},
+        'trusted': ['A-ticket: an atomic fetch_add never returns the same value twice before the counter wraps (the `used` budget check stops the generator before 2^32 requests); load()/store() give no ticket',
+                    'RoaringBitmap::select is injective and returns members (axiom_nth, admitted)',
+                    'rayon and the two `unsafe impl Sync` are trusted: the per-root closures share only the id generator and read-only frozen views'],
+        'not_decided': ['the second sentence of C13 (a build yields a C01 forest for every thread-pool size) beyond: the contracts of the per-tree functions never depend on the order in which other threads run'],
+    },
+    'C15': {
+        'verus': {'tree_count': ['Writer::fit_in_descendant', 'target_n_trees']},
+        'trusted': ['the f64 hysteresis test of target_n_trees is an uninterpreted boolean'],
+        'not_decided': ['reader-visible tree count and bucket bound after a whole build: decided by the build-chain units (delete_extra_trees, missing-tree loop, bucket clauses) where claimed'],
+    },
     'C19': {
         'verus': {'store': KEYS + ['Writer::add_item', 'Writer::append_item', 'Writer::del_item'],
                   'reader_open': KEYS + ['QueryBuilder::by_vector', 'Reader::dimensions']},
